@@ -95,6 +95,14 @@ def are_joinable(
     if any_symbols:
         return JoinableResult(False, "block2 has symbols referring to it")
 
+    if isinstance(block1, gtirb.DataBlock):
+        for table_def in (_auxdata.types, _auxdata.encodings):
+            table = table_def.get(module)
+            if table and table.get(block1) != table.get(block2):
+                return JoinableResult(
+                    False, "blocks have different types or encodings"
+                )
+
     if isinstance(block1, gtirb.CodeBlock):
         assert isinstance(block2, gtirb.CodeBlock)
 
@@ -206,6 +214,19 @@ def join_blocks(
             for k, v in displacement_map.items():
                 new_k = block1.size + k
                 new_displacement_map.setdefault(new_k, []).extend(v)
+
+    # block2 is going away, so the tables describing whole blocks must not
+    # mention it anymore. An empty block1 takes over block2's description.
+    if isinstance(block2, gtirb.DataBlock):
+        per_block_tables = (_auxdata.types, _auxdata.encodings)
+    else:
+        per_block_tables = (_auxdata.profile, _auxdata.sccs)
+    for per_block_table_def in per_block_tables:
+        per_block_table = per_block_table_def.get(module)
+        if per_block_table and block2 in per_block_table:
+            value = per_block_table.pop(block2)
+            if not block1.size:
+                per_block_table[block1] = value
 
     alignment_data = _auxdata.alignment.get(module)
     if alignment_data:
